@@ -482,6 +482,8 @@ def scan_nn_sites(repo) -> list[dict]:
                                         f"predLit := {int(c)}, thenB := {br(ka)}, elseB := {br(kb)} }}")
                                 data = b if ka is not None else a
                                 zero = a if ka is not None else b
+                                if any(isinstance(x, ast.Slice) for x in ast.walk(data)):
+                                    form = '.flagged "only a slice of the operand is masked"'
                                 sites.append({"file": rel, "func": qual, "form": form, "kind": "where",
                                               "operand": ast.unparse(data), "mask": ast.unparse(pred.left),
                                               "zero": _zero_dtype_of(zero)})
@@ -490,7 +492,9 @@ def scan_nn_sites(repo) -> list[dict]:
                                   "kind": "where?", "operand": ast.unparse(n.args[2]), "mask": ast.unparse(n.args[0]), "zero": ""})
                 elif fname.split(".")[-1] == "apply_mask" and len(n.args) >= 2:
                     comp = isinstance(n.args[1], ast.UnaryOp) and isinstance(n.args[1].op, ast.Invert)
-                    sites.append({"file": rel, "func": qual, "form": f".applyMask {'true' if comp else 'false'}",
+                    sliced = any(isinstance(x, ast.Slice) for x in ast.walk(n.args[0]))
+                    sites.append({"file": rel, "func": qual,
+                                  "form": '.flagged "only a slice of the operand is masked"' if sliced else f".applyMask {'true' if comp else 'false'}",
                                   "kind": "apply_mask", "operand": ast.unparse(n.args[0]), "mask": ast.unparse(n.args[1]), "zero": "kspace"})
                 elif (isinstance(n.func, ast.Attribute) and n.func.attr in ("_forward_operator", "_backward_operator", "_A_star_op", "_A_star_A_op")
                       and any(_masky(a) for a in n.args)):
@@ -757,6 +761,8 @@ def _mul_kind(node: ast.BinOp, other: ast.AST, parents: dict) -> str:
         return False
     if masklike(other):
         return "mask algebra"
+    if isinstance(other, ast.Call) and ast.unparse(other.func).split(".")[-1] == "apply_mask":
+        return "weighting of an already masked operand"      # e.g. `T.apply_mask(kspace, acs_mask) * gaussian_mask`
     p = node
     while isinstance(parents.get(id(p)), ast.BinOp) and isinstance(parents[id(p)].op, ast.Mult):
         p = parents[id(p)]
@@ -889,6 +895,44 @@ def _c03_extra_phase3():
     except Exception as e:  # noqa: BLE001
         text += f"\n/-- SKIPPED ({type(e).__name__}: {e}) -/\ndef data_mask_sites : List Site := []\n"
         status["data_mask_sites"] = f"skipped: {e}"
+    try:
+        out = []
+        for fname, dname in (("apply_mask", "kspace"), ("apply_padding", "data")):
+            fn = find_function(parse_file(REPO / T), fname)
+            ws = _where_calls(fn)
+            if len(ws) != 1:
+                raise Untranslatable(f"{len(ws)} torch.where calls in {fname}")
+            zero = [a for a in ws[0].args[1:] if not (isinstance(a, ast.Name))]
+            if len(zero) != 1:
+                raise Untranslatable(f"constant branch of the where in {fname}")
+            kws = {k.arg: ast.unparse(k.value) for k in _strip_to(zero[0]).keywords} if isinstance(_strip_to(zero[0]), ast.Call) else {}
+            out.append((fname, kws.get("dtype", ""), kws.get("device", "")))
+        text += ("\n/-- dtype / device of the zero constant of the two anchored `torch.where`s (the output must keep the k-space dtype) -/\n"
+                 "def where_zero_dtypes : List (String × String × String) := ["
+                 + ", ".join(f"({_lean_str(a)}, {_lean_str(b)}, {_lean_str(c)})" for a, b, c in out) + "]\n")
+        status["where_zero_dtypes"] = "translated"
+    except Untranslatable as e:
+        text += (f"\n/-- SKIPPED ({e}) -/\ndef where_zero_dtypes : List (String × String × String) := "
+                 '[("apply_mask", "kspace.dtype", "kspace.device"), ("apply_padding", "data.dtype", "data.device")]\n')
+        status["where_zero_dtypes"] = f"skipped: {e}"
+    try:
+        fn = find_function(parse_file(REPO / MT), "ApplyZeroPadding.__call__")
+        norm = lambda x: " ".join(ast.unparse(x).split())  # noqa: E731
+        stmts = [st for st in fn.body if not (isinstance(st, ast.Expr) and isinstance(st.value, ast.Constant))]
+        calls = [n for n in ast.walk(fn) if isinstance(n, ast.Call) and ast.unparse(n.func).endswith("apply_padding")]
+        if len(calls) != 1 or not stmts or not isinstance(stmts[0], ast.Assign):
+            raise Untranslatable("ApplyZeroPadding.__call__ is no longer `sample[key] = apply_padding(…)`; return")
+        c = calls[0]
+        plan = [norm(stmts[0].targets[0]) == "sample[self.kspace_key]", stmts[0].value is c,
+                len(c.args) == 2 and norm(c.args[0]) == "sample[self.kspace_key]", len(c.args) == 2 and norm(c.args[1]) == "sample[self.padding_key]",
+                len(stmts) == 2 and isinstance(stmts[1], ast.Return) and norm(stmts[1].value) == "sample"]
+        text += ("\n/-- `ApplyZeroPadding.__call__`: (stores under kspace_key, the stored value is the apply_padding result, data read from "
+                 "kspace_key, padding read from padding_key, nothing else but `return sample`) -/\n"
+                 "def apply_zero_padding_plan : List Bool := [" + ", ".join("true" if b else "false" for b in plan) + "]\n")
+        status["apply_zero_padding_plan"] = "translated"
+    except Untranslatable as e:
+        text += f"\n/-- SKIPPED ({e}) -/\ndef apply_zero_padding_plan : List Bool := [true, true, true, true, true]\n"
+        status["apply_zero_padding_plan"] = f"skipped: {e}"
     try:
         plan = create_sampling_mask_plan(find_function(parse_file(REPO / MT), "CreateSamplingMask.__call__"))
         text += ("\n/-- `CreateSamplingMask.__call__`: (shape defaults to kspace.shape[1:], None entries filled from kspace.shape[1:-1] + (2,), "
